@@ -60,12 +60,17 @@ def gen_model(rng):
         elif pattern == 'abcabc':
             cur = i % min(3, ncommits)
         seq.append(cur)
-    with_file = rng.random() < 0.2
+    with_file = rng.random() < 0.25
+    # blame across renames (or -f): a file-name column, padded to the longest name; names may contain blanks
+    names = rng.sample(['old/name.rs', 'old render.rs', 'src/a b/c d.rs', 'x.rs', 'dir-1/näme.rs'], rng.randint(1, 3))
+    for c in commits:
+        c['file'] = rng.choice(names)
+    fw = max(len(c['file']) for c in commits)
     start = rng.choice([1, 1, 8, 95, 998])
     lines = []
     for i, ci in enumerate(seq):
         code = gen.rand_text(rng, 50)
-        lines.append({'commit': commits[ci], 'lineno': start + i, 'code': code, 'file': 'old/name.rs' if with_file else None})
+        lines.append({'commit': commits[ci], 'lineno': start + i, 'code': code, 'file': commits[ci]['file'].ljust(fw) if with_file else None})
     return lines, pattern
 
 
